@@ -180,6 +180,12 @@ def run_case(case: dict) -> dict:
     if max(abs(float(x)) for x in rhs0) > 1e-9:
         raise AssertionError("harness: base network is not steady")
     concs, fluxes = pd.Series(net["pools"]), pd.Series(net["fluxes"])
+    if rng.random() < 0.4:
+        # the whole steady-state argument table is handed over as `concs`, and the base model has a quantity of its own that
+        # is called EXT (a clamped medium pool): the enrichment of the external label pool is still the `external_label` given
+        base.add_parameter("EXT", 0.37)
+        concs = pd.Series({**net["pools"], **{k: float(v) for k, v in base.get_parameter_values().items()}})
+        counters["steady_state_table_with_a_quantity_called_EXT"] = 1
     iso_model = LabelMapper(base, label_variables=dict(net["labels"]), label_maps={k: list(v) for k, v in net["maps"].items()}).build_model()
     lin = LinearLabelMapper(base, label_variables=dict(net["labels"]), label_maps={k: list(v) for k, v in net["maps"].items()})
     lin_model = lin.build_model(concs=concs, fluxes=fluxes, external_label=1.0)
